@@ -80,7 +80,7 @@ func Genesis(app *chain.App, variant string) map[string]json.RawMessage {
 		set("regen.ecocredit.v1.CreditType", []m{
 			{"abbreviation": "C", "name": "carbon", "unit": "metric ton CO2 equivalent", "precision": 6},
 			{"abbreviation": "BIO", "name": "biodiversity", "unit": "ha", "precision": 6}})
-	case "prefix":
+	case "prefix", "underbacked":
 		// sequence tables advanced so that identifiers become string prefixes of each other
 		admin := ActorAddr(0)
 		set("regen.ecocredit.v1.ClassFee", m{})
@@ -122,6 +122,15 @@ func Genesis(app *chain.App, variant string) map[string]json.RawMessage {
 		set("regen.ecocredit.basket.v1.Basket", []interface{}{1, m{"id": 1, "basket_denom": "eco.uC.GEN", "name": "GEN", "disable_auto_retire": true, "credit_type_abbrev": "C", "exponent": 6, "curator": ActorAddr(2).Bytes()}})
 		set("regen.ecocredit.basket.v1.BasketClass", []m{{"basket_id": 1, "class_id": "C09"}})
 		set("regen.ecocredit.basket.v1.BasketBalance", []m{{"basket_id": 1, "batch_denom": "C09-099-20200101-20210101-998", "balance": "0", "batch_start_date": "2020-01-01T00:00:00Z"}})
+		if variant == "underbacked" {
+			// a sell order whose quantity (12) exceeds what its seller has in escrow (5): the state validators do
+			// not compare the two tables, so the module's ValidateGenesis accepts it; no message history leads here
+			set("regen.ecocredit.v1.BatchBalance", []m{
+				{"batch_key": 1, "address": ActorAddr(3).Bytes(), "tradable_amount": "100", "retired_amount": "", "escrowed_amount": ""},
+				{"batch_key": 1, "address": ActorAddr(4).Bytes(), "tradable_amount": "65", "retired_amount": "30", "escrowed_amount": "5"}})
+			set("regen.ecocredit.marketplace.v1.Market", []interface{}{1, m{"id": 1, "credit_type_abbrev": "C", "bank_denom": "stake", "precision_modifier": 0}})
+			set("regen.ecocredit.marketplace.v1.SellOrder", []interface{}{1, m{"id": 1, "seller": ActorAddr(4).Bytes(), "batch_key": 1, "quantity": "12", "market_id": 1, "ask_amount": "10", "disable_auto_retire": true, "maker": true}})
+		}
 	default:
 		panic("unknown genesis variant " + variant)
 	}
@@ -130,7 +139,7 @@ func Genesis(app *chain.App, variant string) map[string]json.RawMessage {
 		panic(err)
 	}
 	gs["ecocredit"] = bz
-	if variant == "prefix" {
+	if variant == "prefix" || variant == "underbacked" {
 		// data anchored by an earlier binary: the IRI is well formed, but its content hash (digest
 		// algorithm byte 0) is one that today's message validation would refuse — such a record can only
 		// come with a genesis file, and must stay reachable by its IRI
